@@ -64,6 +64,19 @@ int stat64(const char *path, struct stat64 *st)
 		return -1;
 	return REAL(stat64)(path, st);
 }
+/* the repaired remove_directory uses lstat(): same fault kind, same counter */
+int lstat(const char *path, struct stat *st)
+{
+	if (tick(K_STAT))
+		return -1;
+	return REAL(lstat)(path, st);
+}
+int lstat64(const char *path, struct stat64 *st)
+{
+	if (tick(K_STAT))
+		return -1;
+	return REAL(lstat64)(path, st);
+}
 int unlink(const char *path)
 {
 	if (tick(K_UNLINK))
@@ -165,6 +178,13 @@ static void dump_dir(const char *path, int sorted, FILE *out)
 			fprintf(out, " D %s", names[i]);
 			dump_dir(buf, sorted, out);
 			fprintf(out, " E");
+		}
+		else if (S_ISLNK(st.st_mode)) {
+			char target[1024];
+			ssize_t tl = readlink(buf, target, sizeof(target) - 1);
+
+			target[tl > 0 ? tl : 0] = 0;
+			fprintf(out, " L %s %s", names[i], target);
 		}
 		else {
 			int fd = open(buf, O_RDONLY);
